@@ -323,7 +323,8 @@ def subtree_scenarios(ctx, out):
     rng = common.rng_for(ctx.seed, 'C19:subtrees')
     n = 400 if ctx.tier != 'thorough' else 6000
     st = {'models': 0, 'mutations': 0, 'views': 0, 'subtype_slot_views': 0, 'eobject_slot_views': 0,
-          'max_depth': 0, 'raised': 0, 'feature_added_at_run_time': 0}
+          'max_depth': 0, 'raised': 0, 'feature_added_at_run_time': 0,
+          'flagged_volatile': 0, 'flagged_unsettable': 0, 'flagged_transient': 0, 'flagged_changeable': 0}
     sample = None
     for it in range(n):
         NK = rng.randrange(3, 7)
@@ -350,8 +351,15 @@ def subtree_scenarios(ctx, out):
                 target = 'EObject' if rng.random() < 0.12 else min(rng.randrange(NK), rng.randrange(NK))
             f = {'name': f'r{len(feats)}', 'owner': owner, 'target': target, 'many': rng.random() < 0.7,
                  'containment': containment}
+            # flags that do not change where the value lives (NOT derived): the views must not care
+            flags = {fl: val for fl, val in (('volatile', True), ('unsettable', True), ('transient', True), ('changeable', False))
+                     if rng.random() < 0.2}
+            f['flags'] = sorted(flags)
+            if containment:
+                for fl in flags:
+                    st['flagged_' + fl] += 1
             ref = E.EReference(f['name'], E.EObject if target == 'EObject' else K[target],
-                               upper=-1 if f['many'] else 1, containment=containment)
+                               upper=-1 if f['many'] else 1, containment=containment, **flags)
             K[owner].eStructuralFeatures.append(ref)
             feats.append(f)
             fobj[f['name']] = ref
@@ -602,6 +610,7 @@ def subtree_scenarios(ctx, out):
     out.coverage['subtree_max_depth'] = st['max_depth']
     out.coverage['subtree_containment_references_added_at_run_time'] = st['feature_added_at_run_time']
     out.coverage['subtree_stores_refused'] = st['raised']
+    out.coverage['subtree_containment_references_flagged'] = {k[8:]: v for k, v in st.items() if k.startswith('flagged_')}
     out.coverage['subtree_sample'] = sample
 
 
@@ -962,11 +971,12 @@ def generic_scenarios(ctx, out):
     st = {'graphs': 0, 'edits': 0, 'class_views': 0, 'object_views': 0, 'mixed_chain_views': 0, 'generic_edits': 0,
           'children_in_slot_inherited_through_generic': 0, 'isinstance_checks': 0, 'raised': 0, 'inst_ops': 0,
           'redundant_added': 0, 'covering_link_removed': 0, 'views_with_redundant_super': 0,
-          'classifier_unset': 0, 'classifier_set_after_unset': 0, 'classifier_repointed': 0}
+          'classifier_unset': 0, 'classifier_set_after_unset': 0, 'classifier_repointed': 0, 'renamed': 0, 'same_name_views': 0}
     sample = None
     for gi in range(n):
         ncls = rng.randrange(3, 7)
-        K = [E.EClass(f'K{i}') for i in range(ncls)]
+        # (several classes of ONE name in a graph: distinct classes all the same; messages say K<index>)
+        K = [E.EClass(f'K{i}' if rng.random() < 0.5 else rng.choice(['Element', 'Node'])) for i in range(ncls)]
         sup = {i: [] for i in range(ncls)}
         gen = {i: [] for i in range(ncls)}          # [target, EGenericType]
         own = {i: [] for i in range(ncls)}          # dicts name ref containment many target (+ 'obj' kept apart)
@@ -1052,6 +1062,8 @@ def generic_scenarios(ctx, out):
                     st['mixed_chain_views'] += 1
                 if any(d in closure(e) for d in both(c) for e in both(c) if e != d):
                     st['views_with_redundant_super'] += 1
+                if len({K[d].name for d in [c] + anc}) < len(anc) + 1:
+                    st['same_name_views'] += 1
                 want = sorted(f['name'] for f in feats_of(c))
                 wrefs = sorted(f['name'] for f in feats_of(c) if f['ref'])
                 wattrs = sorted(f['name'] for f in feats_of(c) if not f['ref'])
@@ -1259,8 +1271,19 @@ def generic_scenarios(ctx, out):
             k = rng.choice(['add-super', 'add-generic', 'add-generic', 'remove-super', 'remove-generic', 'retarget-generic',
                             'add-feature', 'remove-feature', 'instances', 'instances', 'instances',
                             'add-redundant', 'add-redundant', 'remove-covering', 'remove-covering',
-                            'retarget-generic', 'retarget-generic'])
+                            'retarget-generic', 'retarget-generic', 'rename-class'])
             c = rng.randrange(ncls)
+            if k == 'rename-class':
+                # a class takes the name of another class of the graph (an ancestor's, if it has one)
+                d = rng.choice(closure(c) or [x for x in range(ncls) if x != c])
+                K[c].name = K[d].name
+                hist.append(['rename-class', c, 'like', d])
+                st['renamed'] += 1
+                st['edits'] += 1
+                check_meta()
+                if objs and state['ok']:
+                    check_inst()
+                continue
             if k == 'retarget-generic' and any(gen.values()):
                 c = rng.choice([x for x in range(ncls) if gen[x]])
             fd = None                  # (a chosen target instead of a random one)
@@ -1401,6 +1424,8 @@ def generic_scenarios(ctx, out):
     out.coverage['generic_classifier_of_a_generic_super_type_unset'] = st['classifier_unset']
     out.coverage['generic_classifier_set_again_after_unset'] = st['classifier_set_after_unset']
     out.coverage['generic_classifier_repointed'] = st['classifier_repointed']
+    out.coverage['generic_classes_renamed_like_another_class'] = st['renamed']
+    out.coverage['generic_class_views_with_two_classes_of_one_name_in_the_closure'] = st['same_name_views']
     out.coverage['generic_redundant_super_types_added'] = st['redundant_added']
     out.coverage['generic_links_removed_that_made_a_direct_super_type_redundant'] = st['covering_link_removed']
     out.coverage['generic_class_views_with_a_redundant_direct_super_type'] = st['views_with_redundant_super']
